@@ -21,7 +21,7 @@ func init() {
 	register(&propDef{
 		ID: "C01",
 		Meta: propMeta{
-			Explanation: "Decides structural necessary conditions (nothing is executed): (R01a) requested-digest plumbing: every registered Signer.Sign function (or the helpers of its own package it calls) reads SignOpts.Hash, and no crypto.Hash constant is passed as an argument or stored as the digest in those functions outside a frozen, reasoned table of format-mandated digests; the server parses the digest parameter through x509tools.HashByName, refuses an unknown name, and hands exactly that value to signinit.Init, which stores it in SignOpts.Hash and in the audit record; the remote command sends the digest name it validated; (R01b) refusal before signing: serveSign calls through Signer.Sign only after the signer lookup, the digest lookup and the flag parsing succeeded; signinit.Init refuses a key without the certificate kind the signer needs before it builds SignOpts; both commands refuse a type without a Sign function before opening the output; (R01c) the standalone and the remote sign command perform the same client-side stages in the same order on every success path (type detection, flags, open for patching, optional is-signed probe and rewind, transform, sign or remote call, apply, fix-up), and both apply the result through the same Transformer; (R01d) every signer that builds a PKCS#7 signature returns it through pkcs9 TimestampAndMarshal / the builder's self-verification (shared with C16 R16e); (R01e) side data: the extended MSI digest the client stores next to the signature is nil or PrehashMSI(this file, SignOpts.Hash) and nothing else; the text size a PowerShell digest reports (the patch offset) is a sum of lengths of lines read from the input and depends on no other call; no memory handed to a sync.Pool is also returned uncopied (zero instances, positive control testdata/ctl/poolesc). (R01f) every field of the OnePassSignature packet written in front of an inline PGP message (type, hash, key algorithm, key id) is copied from the same field of the signature packet it announces; (R01g) in LoadTokenCertificates the ReadFile of the configured certificate path is not control-dependent on the certificate blob the token returned, so the configured certificate wins; (R01h) the in-place patch path truncates to the end of its last patch (shared with C08 R08g): re-signing with a shorter signature yields a file relic's verifier accepts. (R01i) xmldsig.Sign calls RemoveElements(\"Signature\") before hashCanon, so re-signing a signed manifest digests the document without the old signature; (R01j) the packet header written in front of an inline PGP literal switches length forms at 192 and 8384, so relic's own reader (and every other) parses messages of every size.",
+			Explanation: "Decides structural necessary conditions (nothing is executed): (R01a) requested-digest plumbing: every registered Signer.Sign function (or the helpers of its own package it calls) reads SignOpts.Hash, and no crypto.Hash constant is passed as an argument or stored as the digest in those functions outside a frozen, reasoned table of format-mandated digests; the server parses the digest parameter through x509tools.HashByName, refuses an unknown name, and hands exactly that value to signinit.Init, which stores it in SignOpts.Hash and in the audit record; the remote command sends the digest name it validated; (R01b) refusal before signing: serveSign calls through Signer.Sign only after the signer lookup, the digest lookup and the flag parsing succeeded; signinit.Init refuses a key without the certificate kind the signer needs before it builds SignOpts; both commands refuse a type without a Sign function before opening the output; (R01c) the standalone and the remote sign command perform the same client-side stages in the same order on every success path (type detection, flags, open for patching, optional is-signed probe and rewind, transform, sign or remote call, apply, fix-up), and both apply the result through the same Transformer; (R01d) every signer that builds a PKCS#7 signature returns it through pkcs9 TimestampAndMarshal / the builder's self-verification (shared with C16 R16e); (R01e) side data: the extended MSI digest the client stores next to the signature is nil or PrehashMSI(this file, SignOpts.Hash) and nothing else; the text size a PowerShell digest reports (the patch offset) is a sum of lengths of lines read from the input and depends on no other call; no memory handed to a sync.Pool is also returned uncopied (zero instances, positive control testdata/ctl/poolesc). (R01f) every field of the OnePassSignature packet written in front of an inline PGP message (type, hash, key algorithm, key id) is copied from the same field of the signature packet it announces; (R01g) in LoadTokenCertificates the ReadFile of the configured certificate path is not control-dependent on the certificate blob the token returned, so the configured certificate wins; (R01h) the in-place patch path truncates to the end of its last patch (shared with C08 R08g): re-signing with a shorter signature yields a file relic's verifier accepts. (R01i) xmldsig.Sign calls RemoveElements(\"Signature\") before hashCanon, so re-signing a signed manifest digests the document without the old signature; (R01j) the packet header written in front of an inline PGP literal switches length forms at 192 and 8384, so relic's own reader (and every other) parses messages of every size. (R01k) no function writes an element through a slice header it loaded from a field of an object before calling something on that object that may assign the field (append-and-store in the callee, followed to depth 3 with constant boolean arguments applied): the chain addStream threads through the sector table lands in the table the file is written from; positive control ctl/stale. (R01l) signdeb.Sign skips every _gpg* member when it lists what the new signature covers (C08 R08b).",
 			NotDecided:  "that a produced artifact verifies; correctness of digests and offsets for any input layout; key-type coverage (RSA/ECDSA/PGP) of each signer; equality of server-side and standalone output bytes.",
 			Assumptions: []string{"the signer registry consists of the signers.Signer literals passed to signers.Register"},
 		},
